@@ -20,12 +20,16 @@ class Loader:
         self._routine_segment = []
         self._routines = {}
         self._iter = None
+        self._main_positions = []
+        self._main_origins = []
 
     def _next_inst(self):
         if self._iter is None:
             return None
         try:
-            return next(self._iter)
+            inst = next(self._iter)
+            self._main_positions.append(len(self._main_segment))
+            return inst
         except StopIteration:
             self._iter = None
             return None
@@ -35,6 +39,8 @@ class Loader:
         self._main_segment.clear()
         self._routine_segment.clear()
         self._routines.clear()
+        self._main_positions.clear()
+        self._main_origins.clear()
         self._load_runtime()
         if instructions is not None:
             self._iter = iter(instructions)
@@ -44,8 +50,23 @@ class Loader:
                     rtn = self._load_routine(inst)
                     self._routines[rtn.name] = rtn
                 else:
+                    self._main_origins.append(len(self._main_positions) - 1)
                     self._main_segment.append(inst)
                 inst = self._next_inst()
+            self._fix_jumps()
+
+    def _fix_jumps(self):
+        # Routine definitions have been moved out of the main segment: a jump
+        # that went across one has that many fewer instructions to cover.
+        positions = self._main_positions + [len(self._main_segment)]
+        for position, inst in enumerate(self._main_segment):
+            if inst.op_code is OpCode.JUMP and isinstance(inst.param1, int):
+                target = self._main_origins[position] + inst.param1
+                if 0 <= target < len(positions):
+                    offset = positions[target] - position
+                    if offset != inst.param1:
+                        self._main_segment[position] = Instruction(
+                            OpCode.JUMP, inst.param0, offset)
 
     @inject(i_runtime.Runtime)
     def _load_runtime(self, runtime):
